@@ -39,6 +39,9 @@ def _check_case(repo, case: S.SimCase, rank, fast: bool = False):
     same path reference applies (the remaining path covers the same prices), only the per-minute epilogue rules are skipped."""
     desc = describe(rank)
     samples = embeddings(rank, 2)
+    # the same ordering with every level a tick apart (within 0.01 % of each other): exact comparisons must stay exact
+    levels = sorted(set(samples[0].values()))
+    samples.append({k: Fraction(100) + Fraction(levels.index(v), 1000) for k, v in samples[0].items()})
     for s in samples:
         s.update({"ts": Fraction(60000), "v": Fraction(5), "cp0": Fraction(1), "now": Fraction(120000),
                   "t_created": Fraction(0)})
